@@ -434,6 +434,9 @@ def gen_wellformed(rnd, shape, idx=0):
             out = []
             for k in HOOK_KEYS:
                 n = rnd.randint(0, shape.hooks)
+                if n == 0 and rnd.random() < 0.15:
+                    out.append(('list', k, []))      # `guards: []` spelled out: the same as leaving the key out
+                    continue
                 if n == 0 or rnd.random() < 0.3:
                     continue
                 hs = []
